@@ -364,8 +364,9 @@ package twig
 //@ list order_inert_calls (*RenderContext).EvaluateExpression
 // SetVariable(name, value) is ctx.context[name] = value (argument 1 is the key; 0 is the receiver)
 //@ list order_insert_calls (*RenderContext).SetVariable:1
-// the string form of the keys of one map is assumed injective (merge of maps with mixed key types)
-//@ list order_injective_keys toString
+// what map keys are ordered by - string form, then type - is assumed to tell the keys of one map
+// apart (the string form alone does not: 1 and "1")
+//@ list order_injective_keys mapKeyOrder
 //@ func sortedMapKeys props: C05 C03
 //@   requires ufi_kind(rv) == 21
 // the keys of a map value that can be interfaced are valid values that can be interfaced, and each
